@@ -188,8 +188,12 @@ func (w *worker[T, JobType]) releaseWaiters(processing uint32) {
 
 	// Only release waiters if worker is paused or if running with an empty queue
 	if w.IsPaused() || (w.IsRunning() && w.queues.Len() == 0) {
-		// Broadcast to all waiters to signal they can continue
+		// Broadcast to all waiters to signal they can continue.
+		// The mutex is held so that the broadcast cannot fall between a waiter's
+		// check of its condition and its call to Wait (it would be lost).
+		w.mx.Lock()
 		w.waiters.Broadcast()
+		w.mx.Unlock()
 	}
 }
 
@@ -232,6 +236,32 @@ func (w *worker[T, JobType]) Errs() <-chan error {
 
 // processNextJob processes the next Job in the queue.
 func (w *worker[T, JobType]) processNextJob() error {
+	w.reserveSlot()
+
+	return w.processReservedJob()
+}
+
+// reserveSlot counts a job as processing before it leaves its queue: a job in transit is then
+// always visible either as pending or as processing, so WaitUntilFinished cannot miss it.
+func (w *worker[T, JobType]) reserveSlot() {
+	w.curProcessing.Add(1)
+}
+
+// releaseSlot gives a reserved slot back when no job was dispatched into it.
+func (w *worker[T, JobType]) releaseSlot() {
+	w.releaseWaiters(w.curProcessing.Add(^uint32(0)))
+}
+
+// processReservedJob takes the next job and dispatches it into the slot reserved by the caller.
+// The slot is released again if no job is dispatched.
+func (w *worker[T, JobType]) processReservedJob() error {
+	dispatched := false
+	defer func() {
+		if !dispatched {
+			w.releaseSlot()
+		}
+	}()
+
 	queue, err := w.queues.next()
 
 	if err != nil {
@@ -282,7 +312,7 @@ func (w *worker[T, JobType]) processNextJob() error {
 		return nil
 	}
 
-	w.curProcessing.Add(1)
+	dispatched = true
 	j.setAckId(ackId)
 
 	// then job will be process by the processSingleJob function inside spawnWorker
@@ -419,10 +449,21 @@ func (w *worker[T, JobType]) goEventLoop() {
 	go func(signal <-chan struct{}) {
 		for range signal {
 			for w.IsRunning() && w.curProcessing.Load() < w.concurrency.Load() && w.queues.Len() > 0 {
-				if err := w.processNextJob(); err != nil {
+				// Pause stores the status and then waits for the reserved slots to drain. Having
+				// reserved, look again: either this check sees the pause or the waiter sees the slot.
+				w.reserveSlot()
+				if !w.IsRunning() {
+					w.releaseSlot()
+					break
+				}
+
+				if err := w.processReservedJob(); err != nil {
 					w.sendError(err)
 				}
 			}
+			// nothing (more) to dispatch: wake barrier callers whose condition may have
+			// become true without a completion, e.g. after a purge
+			w.releaseWaiters(w.curProcessing.Load())
 		}
 	}(w.eventLoopSignal)
 }
